@@ -8,6 +8,189 @@ namespace Abyss
 def firstNonEmpty (head : Nat → Nat) (idx n : Nat) : Option Nat :=
   (List.range' idx (n - idx)).find? (fun j => head j ≠ 0)
 
+/-! ## bitmap bytes / words -/
+
+theorem byteZero_true {bit : Nat → Bool} {j : Nat} (h : byteZero bit j = true) :
+    ∀ i, 8 * j ≤ i → i < 8 * j + 8 → bit i = false := by
+  intro i h1 h2
+  simp only [byteZero, List.all_eq_true, List.mem_range] at h
+  have h3 := h (i - 8 * j) (by omega)
+  have e : 8 * j + (i - 8 * j) = i := by omega
+  rw [e] at h3
+  simpa using h3
+
+theorem wordZero_true {bit : Nat → Bool} {j : Nat} (h : wordZero bit j = true) :
+    ∀ i, 8 * j ≤ i → i < 8 * j + 64 → bit i = false := by
+  intro i h1 h2
+  simp only [wordZero, List.all_eq_true, List.mem_range] at h
+  have h3 := h ((i - 8 * j) / 8) (by omega)
+  exact byteZero_true h3 i (by omega) (by omega)
+
+/-! ## `firstNonEmpty` -/
+
+theorem firstNonEmpty_self (head : Nat → Nat) (n : Nat) : firstNonEmpty head n n = none := by
+  simp [firstNonEmpty]
+
+theorem firstNonEmpty_step (head : Nat → Nat) {idx n : Nat} (h : idx < n) :
+    firstNonEmpty head idx n =
+      if head idx ≠ 0 then some idx else firstNonEmpty head (idx + 1) n := by
+  unfold firstNonEmpty
+  have e : n - idx = (n - (idx + 1)) + 1 := by omega
+  rw [e, List.range'_succ, List.find?_cons]
+  by_cases h0 : head idx = 0 <;> simp [h0]
+
+theorem firstNonEmpty_skip (head : Nat → Nat) (n idx : Nat) :
+    ∀ (d : Nat) (idx1 : Nat), idx1 = idx + d → idx1 ≤ n →
+      (∀ i, idx ≤ i → i < idx1 → head i = 0) →
+      firstNonEmpty head idx n = firstNonEmpty head idx1 n := by
+  intro d
+  induction d with
+  | zero => intro idx1 h1 _ _; simp at h1; rw [h1]
+  | succ d ih =>
+    intro idx1 h1 h2 h3
+    rw [ih (idx + d) rfl (by omega) (fun i hi1 hi2 => h3 i hi1 (by omega))]
+    rw [firstNonEmpty_step head (by omega : idx + d < n)]
+    have := h3 (idx + d) (by omega) (by omega)
+    simp [this, h1, Nat.add_assoc]
+
+theorem firstNonEmpty_skip' (head : Nat → Nat) {n idx idx1 : Nat} (h1 : idx ≤ idx1) (h2 : idx1 ≤ n)
+    (h3 : ∀ i, idx ≤ i → i < idx1 → head i = 0) :
+    firstNonEmpty head idx n = firstNonEmpty head idx1 n :=
+  firstNonEmpty_skip head n idx (idx1 - idx) idx1 (by omega) h2 h3
+
+/-! ## the bucket loop -/
+
+theorem scanBuckets_nonzero (head : Nat → Nat) (n fuel idx off : Nat) (h : off ≠ 0) :
+    scanBuckets head n fuel idx off = (idx, off) := by
+  cases fuel <;> simp [scanBuckets, h]
+
+theorem scanBuckets_spec (head : Nat → Nat) (n : Nat) :
+    ∀ (fuel idx : Nat), idx ≤ n → n - idx < fuel →
+      scanBuckets head n fuel idx 0 =
+        match firstNonEmpty head idx n with
+        | some j => (j + 1, head j)
+        | none => (n, 0) := by
+  intro fuel
+  induction fuel with
+  | zero => intro idx _ h; omega
+  | succ fuel ih =>
+    intro idx h1 h2
+    by_cases hlt : idx < n
+    · rw [firstNonEmpty_step head hlt]
+      simp only [scanBuckets, hlt, and_self, if_true]
+      by_cases h0 : head idx = 0
+      · rw [h0, ih (idx + 1) (by omega) (by omega)]
+        simp
+      · rw [scanBuckets_nonzero _ _ _ _ _ h0]
+        simp [h0]
+    · have e : idx = n := by omega
+      subst e
+      simp [scanBuckets, firstNonEmpty_self]
+
+/-! ## the word loop -/
+
+theorem scanWords_inv (bit : Nat → Bool) (n idx0 : Nat) :
+    ∀ (fuel idx : Nat) (lz : Bool), idx % 8 = 0 → 64 ≤ idx → idx0 ≤ idx - 64 → idx - 64 < n →
+      (∀ i, idx0 ≤ i → i < idx - 64 → bit i = false) →
+      (lz = true → ∀ i, idx - 64 ≤ i → i < idx → bit i = false) →
+      ∃ i2, scanWords bit n fuel idx lz true = (i2, true) ∧ i2 % 8 = 0 ∧ 64 ≤ i2 ∧
+        idx0 ≤ i2 - 64 ∧ i2 - 64 < n ∧ (∀ i, idx0 ≤ i → i < i2 - 64 → bit i = false) := by
+  intro fuel
+  induction fuel with
+  | zero =>
+    intro idx lz h1 h2 h3 h4 h5 _
+    exact ⟨idx, by simp [scanWords], h1, h2, h3, h4, h5⟩
+  | succ fuel ih =>
+    intro idx lz h1 h2 h3 h4 h5 h6
+    by_cases hc : lz = true ∧ idx + 8 < n
+    · simp only [scanWords, hc, and_self, if_true]
+      have h6' := h6 hc.1
+      apply ih (idx + 64) (wordZero bit (idx / 8)) (by omega) (by omega) (by omega) (by omega)
+      · intro i hi1 hi2
+        by_cases hi : i < idx - 64
+        · exact h5 i hi1 hi
+        · exact h6' i (by omega) (by omega)
+      · intro hw i hi1 hi2
+        exact wordZero_true hw i (by omega) (by omega)
+    · refine ⟨idx, ?_, h1, h2, h3, h4, h5⟩
+      simp only [scanWords]
+      rw [if_neg (by simpa using hc)]
+
+/-! ## the byte loop -/
+
+theorem scanBytes_inv (bit : Nat → Bool) (n i3 : Nat) :
+    ∀ (fuel idx : Nat) (lz : Bool), idx % 8 = 0 → 8 ≤ idx → i3 ≤ idx - 8 → idx - 8 < n →
+      (∀ i, i3 ≤ i → i < idx - 8 → bit i = false) →
+      (lz = true → ∀ i, idx - 8 ≤ i → i < idx → bit i = false) →
+      let i4 := scanBytes bit n fuel idx lz
+      8 ≤ i4 ∧ i3 ≤ i4 - 8 ∧ i4 - 8 < n ∧ (∀ i, i3 ≤ i → i < i4 - 8 → bit i = false) := by
+  intro fuel
+  induction fuel with
+  | zero =>
+    intro idx lz h1 h2 h3 h4 h5 _
+    simp only [scanBytes]
+    exact ⟨h2, h3, h4, h5⟩
+  | succ fuel ih =>
+    intro idx lz h1 h2 h3 h4 h5 h6
+    by_cases hc : lz = true ∧ idx < n
+    · simp only [scanBytes, hc, and_self, if_true]
+      have h6' := h6 hc.1
+      apply ih (idx + 8) (byteZero bit (idx / 8)) (by omega) (by omega) (by omega) (by omega)
+      · intro i hi1 hi2
+        by_cases hi : i < idx - 8
+        · exact h5 i hi1 hi
+        · exact h6' i (by omega) (by omega)
+      · intro hw i hi1 hi2
+        exact byteZero_true hw i (by omega) (by omega)
+    · simp only [scanBytes]
+      rw [if_neg (by simpa using hc)]
+      exact ⟨h2, h3, h4, h5⟩
+
+/-- the start index handed to the bucket loop skips only empty bitmap positions -/
+theorem scanStart_inv (bit : Nat → Bool) (n idx : Nat) (hidx : idx < n) (h8 : idx % 8 = 0) :
+    let r := scanWords bit n (n + 1) idx true false
+    let i3 := if r.2 then r.1 - 64 else r.1
+    let i4 := scanBytes bit n (n + 1) i3 true
+    idx ≤ i4 - 8 ∧ i4 - 8 < n ∧ (∀ i, idx ≤ i → i < i4 - 8 → bit i = false) := by
+  intro r i3 i4
+  have hi3 : idx ≤ i3 ∧ i3 % 8 = 0 ∧ i3 < n ∧ (∀ i, idx ≤ i → i < i3 → bit i = false) := by
+    by_cases hc : idx + 8 < n
+    · obtain ⟨i2, e, a1, a2, a3, a4, a5⟩ :=
+        scanWords_inv bit n idx n (idx + 64) (wordZero bit (idx / 8)) (by omega) (by omega)
+          (by omega) (by omega) (fun i hi1 hi2 => by omega)
+          (fun hw i hi1 hi2 => wordZero_true hw i (by omega) (by omega))
+      have er : r = (i2, true) := by
+        show scanWords bit n (n + 1) idx true false = _
+        simp only [scanWords, hc, and_self, if_true]
+        exact e
+      have e3 : i3 = i2 - 64 := by
+        show (if r.2 then r.1 - 64 else r.1) = _
+        rw [er]; simp
+      rw [e3]
+      exact ⟨a3, by omega, a4, a5⟩
+    · have er : r = (idx, false) := by
+        show scanWords bit n (n + 1) idx true false = _
+        simp [scanWords, hc]
+      have e3 : i3 = idx := by
+        show (if r.2 then r.1 - 64 else r.1) = _
+        rw [er]; simp
+      rw [e3]
+      exact ⟨Nat.le_refl _, h8, hidx, fun i hi1 hi2 => by omega⟩
+  obtain ⟨b1, b2, b3, b4⟩ := hi3
+  have e4 : i4 = scanBytes bit n n (i3 + 8) (byteZero bit (i3 / 8)) := by
+    show scanBytes bit n (n + 1) i3 true = _
+    simp [scanBytes, b3]
+  have := scanBytes_inv bit n i3 n (i3 + 8) (byteZero bit (i3 / 8)) (by omega) (by omega)
+    (by omega) (by omega) (fun i hi1 hi2 => by omega)
+    (fun hw i hi1 hi2 => byteZero_true hw i (by omega) (by omega))
+  rw [← e4] at this
+  obtain ⟨c1, c2, c3, c4⟩ := this
+  refine ⟨by omega, c3, ?_⟩
+  intro i hi1 hi2
+  by_cases hi : i < i3
+  · exact b4 i hi1 hi
+  · exact c4 i (by omega) hi2
+
 /-- For every table size `n ≥ 1`, every start index and every occupancy pattern whose bitmap is
 consistent with the bucket table, `next_key_piece_offset` returns the first non-empty bucket
 at or after `idx` (and the index following it), or `(n, 0)` when there is none. -/
@@ -18,6 +201,21 @@ theorem nextKeyPieceOffset_spec (bit : Nat → Bool) (head : Nat → Nat) (n idx
     nextKeyPieceOffset bit head n idx =
       match firstNonEmpty head idx n with
       | some j => (j + 1, head j)
-      | none => (n, 0) := by sorry
+      | none => (n, 0) := by
+  -- `hb2` (bits beyond the table read as zero) is not needed: a stray set bit there could only
+  -- stop the word/byte loops earlier, which never skips a bucket.
+  have _ := hb2
+  by_cases h8 : idx % 8 = 0
+  · obtain ⟨a1, a2, a3⟩ := scanStart_inv bit n idx hidx h8
+    simp only [nextKeyPieceOffset, h8, if_true]
+    rw [scanBuckets_spec head n (n + 1) _ (Nat.le_of_lt a2) (by omega)]
+    rw [← firstNonEmpty_skip' head a1 (Nat.le_of_lt a2)]
+    intro i hi1 hi2
+    have := a3 i hi1 hi2
+    have hb' := hb i (by omega)
+    rw [this] at hb'
+    simpa using hb'
+  · simp only [nextKeyPieceOffset, h8, if_false]
+    exact scanBuckets_spec head n (n + 1) idx (Nat.le_of_lt hidx) (by omega)
 
 end Abyss
